@@ -221,6 +221,22 @@ def check_point(cls, spec, o, res):
     except Exception as e:
         add_violation(res, f"C06:{cname}:str-unexpected-exception", f"str() raised {e!r}", case)
         sobs = "EXC"
+    # ---- reading is idempotent: the same object read again (value, str, status, named bits) says the same --------------
+    def snapshot():
+        out = []
+        for what in ("value", "str", "status"):
+            try:
+                x = r.value if what == "value" else (str(r) if what == "str" else getattr(r, "status", None))
+                out.append((what, "v", repr(x) if x is not raw else "frame"))
+            except Exception as e:
+                out.append((what, "x", type(e).__name__))
+        return out
+    first = snapshot()
+    second = snapshot()
+    third = snapshot()
+    if not (first == second == third) or (first[0][1] == "v") != (val[0] == "v") or (first[0][1] == "x" and first[0][2] != val[1]):
+        add_violation(res, f"C06:{cname}:reread-differs:{okind}",
+                      f"{cname}({o}): first .value {val!r}, then on the same object {first}, {second}, {third}", case)
     v1 = val[1]
     if v1 is raw and raw is not None:
         v1 = "frame"
